@@ -918,8 +918,10 @@ createApp({
                         const txns = merchant.filteredTxns || merchant.transactions || [];
 
                         for (const txn of txns) {
-                            // Use centralized categorizeAmount() for consistent classification
-                            const c = categorizeAmount(txn.amount || 0, tags);
+                            // Use centralized categorizeAmount() for consistent classification,
+                            // on the transaction's own tags like the command line does (the merchant's
+                            // tags are the union over all its transactions)
+                            const c = categorizeAmount(txn.amount || 0, txn.tags || tags);
                             totals.income += c.income;
                             totals.investment += c.investment;
                             totals.transferIn += c.transferIn;
@@ -1089,8 +1091,8 @@ createApp({
                         const tags = merchant.tags || [];
 
                         for (const txn of merchant.filteredTxns || []) {
-                            // Use centralized categorization
-                            const c = categorizeAmount(txn.amount, tags);
+                            // Use centralized categorization (on the transaction's own tags)
+                            const c = categorizeAmount(txn.amount, txn.tags || tags);
 
                             // Track spending by month and category
                             if (c.spending > 0) {
